@@ -145,7 +145,10 @@ def build_program_task(task):
             ops.append({'op': 'evaluate', 'expr': '%s(%d, %d)' % (fname, args[0], args[1]), 'threaded': threaded})
     else:
         ops.append({'op': 'run', 'inputs': inputs, 'threaded': threaded})
-    spec = {'files': files, 'config': {'tracer': tracer, 'ref': True}, 'ops': ops,
+    cfg = {'tracer': tracer, 'ref': True}
+    if threaded and rc.random() < (0.6 if entry == 'import' else 0.2):
+        cfg['sandbox_threaded'] = True      # sandbox-wide threaded mode: the nested import runs in a thread of its own
+    spec = {'files': files, 'config': cfg, 'ops': ops,
             'meta': {'entry': entry, 'threaded': threaded, 'tracer': tracer, 'seed': task['seed']}}
     return spec
 
